@@ -348,29 +348,16 @@ def label_template(prog, fn, depth=0):
     return found
 
 
-def r5_label_names_injective(ctx, rule="C02.R5"):
+def _judge_name_template(ctx, rule, tag, items, kinds, f, what="label"):
+    """a generated name is built from one template: literal, prefix, separator, the whole position"""
     prog = ctx.prog
-    seen = {}
-    for name in ("label", "jump", "jump_if_false"):
-        f = ctx.anchor_method("InstructionGenerator", name)
-        ts = label_template(prog, f)
-        if len(ts) != 1 or ts[0][0] is None:
-            raise CheckError("%s: label-name template not recognised (%d candidates)" % (name, len(ts)))
-        seen[name] = ts[0]
-    base = seen["label"]
-    for name in ("jump", "jump_if_false"):
-        ctx.decide(seen[name][0] == base[0] and seen[name][1] == base[1], rule, "%s:%s-uses-label-template" % (rule, name),
-                   seen[name][2].loc, "same name template as label()",
-                   "%s() builds names with template %s/%s but label() with %s/%s: jumps cannot find their label"
-                   % (name, seen[name][0], seen[name][1], base[0], base[1]))
-    items, kinds, f = base
     n_args = sum(1 for i in items if i[0] == "arg")
     adjacent = any(items[i][0] == "arg" and items[i + 1][0] == "arg" for i in range(len(items) - 1))
-    ctx.decide(not adjacent and n_args == len(kinds), rule, rule + ":fields-separated", f.loc,
+    ctx.decide(not adjacent and n_args == len(kinds), rule, rule + tag + ":fields-separated", f.loc,
                "every interpolated field is followed by literal text or the end (%s)" % items,
                "the generated label name interpolates two fields with nothing between them (%s): different "
                "(prefix, position) pairs can produce the same name, e.g. row 1 col 11 and row 11 col 1" % items)
-    ctx.decide(n_args >= 2 and items and items[0][0] == "lit", rule, rule + ":prefix-and-position", f.loc,
+    ctx.decide(n_args >= 2 and items and (items[0][0] == "lit" or what != "label"), rule, rule + tag + ":prefix-and-position", f.loc,
                "name = <literal><prefix><sep><position...>", "label names are built from %s" % items)
     # what is interpolated: the prefix and the *whole* position.  Constructs of one kind are told
     # apart by their position only; a name that drops a field of it (row and row, no column) gives two
@@ -409,11 +396,51 @@ def r5_label_names_injective(ctx, rule="C02.R5"):
                             if pl is not None and pl[0] == 1:
                                 fields |= {e["n"] for e in pl[1] if isinstance(e, dict) and "n" in e}
     covered = whole or (all_fields and fields >= all_fields)
-    ctx.decide(prefix and covered, rule, rule + ":interpolates-prefix-and-whole-position", f.loc,
+    ctx.decide(prefix and covered, rule, rule + tag + ":interpolates-prefix-and-whole-position", f.loc,
                "the name contains the prefix and %s" % ("the whole position" if whole else "the fields %s" % sorted(fields)),
                "the generated label name does not contain %s: two constructs of the same kind that differ only there "
                "(two WHILE loops on one line) get the same labels, and jumps of the first land in the second"
                % ("the prefix" if not prefix else "the whole position (only %s of %s)" % (sorted(fields), sorted(all_fields))))
+
+
+def r5_label_names_injective(ctx, rule="C02.R5"):
+    prog = ctx.prog
+    seen = {}
+    for name in ("label", "jump", "jump_if_false"):
+        f = ctx.anchor_method("InstructionGenerator", name)
+        ts = label_template(prog, f)
+        if len(ts) != 1 or ts[0][0] is None:
+            raise CheckError("%s: label-name template not recognised (%d candidates)" % (name, len(ts)))
+        seen[name] = ts[0]
+    base = seen["label"]
+    for name in ("jump", "jump_if_false"):
+        ctx.decide(seen[name][0] == base[0] and seen[name][1] == base[1], rule, "%s:%s-uses-label-template" % (rule, name),
+                   seen[name][2].loc, "same name template as label()",
+                   "%s() builds names with template %s/%s but label() with %s/%s: jumps cannot find their label"
+                   % (name, seen[name][0], seen[name][1], base[0], base[1]))
+    items, kinds, f = base
+    _judge_name_template(ctx, rule, "", items, kinds, f)
+    # the variables of the generator's own making (the value a SELECT CASE selects on, the limit and step
+    # of a FOR) are told apart the same way: purpose and whole position, fields separated; and their names
+    # contain a character no identifier of a program can contain
+    others = [g for g in prog.fns.values() if g.crate == "rusty_basic" and "instruction_generator" in g.id
+              and g.kind != "closure" and g.body is not None and g.name not in ("label", "jump", "jump_if_false")
+              and any(g.body.locals[i]["ty"].endswith("Position") for i in range(1, g.argc + 1))
+              and "Name" in g.body.locals[0]["ty"]
+              and any((t.get("cpath") or "").startswith("std::fmt::Arguments") for _b, t in g.body.calls())
+              and g.id != f.id and not any(mir.callee_of(t) == g.id for _b, t in f.body.calls())]
+    for g in sorted(others, key=lambda x: x.id):
+        ts = [t for t in label_template(prog, g, depth=2) if t[2].id == g.id]
+        if len(ts) != 1 or ts[0][0] is None:
+            continue
+        gi, gk, _g = ts[0]
+        tag = ":variable-name(%s)" % common.generator_construct_of(prog, g) if False else ":variable-name"
+        _judge_name_template(ctx, rule, tag, gi, gk, g, what="variable")
+        lits = "".join(x[1] for x in gi if x[0] == "lit")
+        ctx.decide(any(not (c.isalnum() or c in "._") for c in lits), rule, rule + tag + ":not-a-program-name", g.loc,
+                   "the name contains %r, which no identifier contains" % [c for c in lits if not (c.isalnum() or c in "._")][:2],
+                   "%s builds the name of a variable of the generator's own from %s: without a character that no identifier "
+                   "can contain, a variable of the program can have the same name and is overwritten by the loop" % (g.name, gi))
     ctx.require(rule, 5)
 
 
